@@ -62,6 +62,11 @@ def prepare(ch):
         prep.spec = (AGGS if prep.is_agg else TOOLS)[name].gen(g)
         if name == "batched" and prep.spec.p["n"] < 1:
             prep.spec.p["n"] = 1
+        if len(prep.spec.srcs) >= 2 and not prep.spec.p.get("alias") and ch.chance(1, 3):
+            # some of the arguments are plain containers (nothing to close, nothing to suspend in)
+            for p_ in prep.spec.srcs[:-1]:
+                if ch.chance(1, 2):
+                    p_.flavour, p_.suspend, p_.dual, p_.equal, p_.falsy = ("list", "tuple")[ch.draw(2)], (), False, False, False
         prep.steps = None
         if not prep.is_agg and TOOLS[name].infinite:
             prep.steps = bounded_steps(ch, prep.spec)
@@ -89,8 +94,9 @@ def prepare(ch):
         prep.nested = ch.chance(1, 3)
     else:
         n = ch.between(1, 4)
-        prep.entries = [(ch.draw(3), ch.between(1, 2), ch.weighted([4, 1, 1])) for _ in range(n)]
-        # (kind: 0 entered async cm | 1 pushed async exit | 2 async callback, suspensions, behaviour 0 falsy 1 truthy 2 raise)
+        prep.entries = [(ch.draw(4), ch.between(1, 2), ch.weighted([4, 1, 1, 1])) for _ in range(n)]
+        # (kind: 0 entered async cm | 1 pushed async exit | 2 async callback | 3 entered synchronous cm, suspensions,
+        #  behaviour 0 falsy 1 truthy 2 raise 3 registers one more exit on the stack when it is handed an exception)
         prep.body_susp = ch.between(1, 2)
         prep.block_raises = ch.chance(1, 3)
     # dry run
@@ -420,6 +426,8 @@ def run_stack(prep, st, sim, info, cancel_at):
     log = []
     counts = {}
 
+    stack_box = []
+
     def exit_logic(name, behave, ev):
         counts[name] = counts.get(name, 0) + 1
         log.append(("exit", name, ev))
@@ -427,6 +435,16 @@ def run_stack(prep, st, sim, info, cancel_at):
             return True
         if behave == 2:
             raise InjectedFault(name)
+        if behave == 3 and ev is not None:
+            # e.g. a transaction that queues its rollback only when it fails
+            late = name + "+"
+
+            async def late_exit(et, ev2, tb):
+                log.append(("exit_begin", late, ev2))
+                return False
+
+            stack_box[0].push(late_exit)
+            registered.append(late)
         return False
 
     def make(i, kind, susp, behave):
@@ -458,16 +476,27 @@ def run_stack(prep, st, sim, info, cancel_at):
                 await sim.suspend(PAUSE, None, "exit")
             return exit_logic(name, 0 if behave == 1 else behave, None)
 
-        return name, (CM(), exit_fn, callback)[kind]
+        class SyncCM:
+            def __enter__(self):
+                log.append(("enter", name))
+                log.append(("entered", name))
+                return name
 
-    objs = [make(i, k, s, b) for i, (k, s, b) in enumerate(prep.entries)]
+            def __exit__(self, et, ev, tb):
+                log.append(("exit_begin", name, ev))
+                return exit_logic(name, behave, ev)
+
+        return name, (CM(), exit_fn, callback, SyncCM())[kind]
+
     registered = []
+    objs = [make(i, k, s, b) for i, (k, s, b) in enumerate(prep.entries)]
 
     async def block():
         try:
             async with L.ExitStack() as stack:
+                stack_box.append(stack)
                 for (name, obj), (kind, _, _) in zip(objs, prep.entries):
-                    if kind == 0:
+                    if kind in (0, 3):
                         await stack.enter_context(obj)
                     elif kind == 1:
                         stack.push(obj)
@@ -505,9 +534,30 @@ def run_stack(prep, st, sim, info, cancel_at):
     if cancel is not None and sim.cancel_fired_at and sim.cancel_fired_at[2] in ("body", "enter"):
         # every exit registered at that moment is pending: the innermost gets the cancellation itself,
         # outer ones get it unless an inner exit replaced or suppressed it
-        begins = [e for e in log if e[0] == "exit_begin"]
-        if begins and begins[0][2] is not cancel and not (prep.entries[int(begins[0][1][1:])][0] == 2):
-            info["problems"].append(("C18.pending_exit_did_not_receive_cancellation", ("ExitStack",), {}))
+        # the unwinding rule: exits run in reverse order of registration, each handed the exception in flight
+        # (callbacks nothing); a truthy exit suppresses it, a raising one replaces it, a late registration runs next
+        by_name = {"e%d" % i: ent for i, ent in enumerate(prep.entries)}
+        first_wave = [n_ for n_ in registered if not n_.endswith("+")]
+        exc = cancel
+        todo = list(first_wave)
+        expected = []
+        while todo:
+            name = todo.pop()
+            kind, _susp, behave = by_name.get(name, (1, 0, 0))
+            recv = None if kind == 2 else exc
+            expected.append((name, recv))
+            if kind == 2:
+                behave = 0 if behave == 1 else behave
+            if behave == 1 and exc is not None:
+                exc = None
+            elif behave == 2:
+                exc = ("fault", name)
+            elif behave == 3 and recv is not None:
+                todo.append(name + "+")
+        observed = [(e[1], ("fault", e[2].tag) if isinstance(e[2], InjectedFault) else e[2]) for e in log if e[0] == "exit_begin"]
+        if observed != expected:
+            info["problems"].append(("C18.exits_not_run_as_the_unwinding_rule_says", ("ExitStack",),
+                                     {"observed": repr(observed), "expected": repr(expected)}))
 
 
 def run_prepared(prep, st, ctx):
